@@ -52,10 +52,11 @@ def check(ctx: Ctx) -> None:
     check_wrappers(ctx, ['pad', 'cutoff', 'scale', 'set_channel'])
 
 
-def _check(ctx: Ctx) -> None:
+def _check(ctx: Ctx, only=None) -> None:
     p = ctx.p
     eff = Effects(p)
-    ctx.explanation = (
+    if only is None:
+      ctx.explanation = (
         "Frame conditions of C18 (the 'changes nothing else' half and the shape of the one change): per operation the effect "
         "engine lists every write; set_channel writes only `channel`, on every message (unfiltered loop), with the argument; "
         "pad only appends one new WAIT whose time is symbolically requested - measured length, under `measured < requested`, "
@@ -63,171 +64,177 @@ def _check(ctx: Ctx) -> None:
         "`end - start > maximum`, to start + reduced (linear identity), scale (factor > 1) writes only WAIT times to time*factor, "
         "factor == 1 writes nothing; the Sequence-level wrappers pass their arguments through unchanged; SORT cutoff re-sorts the list after rewriting end times, on every exit. "
         "Not decided: exact resulting durations as numbers; Sequence.scale's default re-quantisation.")
-    ctx.assumptions += ["integer arguments; k >= 1 for scale (the k < 1 path re-bars the sequence and is outside C18)"]
+    if only is None:
+        ctx.assumptions += ["integer arguments; k >= 1 for scale (the k < 1 path re-bars the sequence and is outside C18)"]
 
     # ---- set_channel
-    q = "RelativeSequence.set_channel"
-    fi = p.func(q)
-    ctx.analysed(fi)
-    ws = eff.writes("RelativeSequence", "set_channel")
-    ctx.check({(w.kind, w.attr) for w in ws} == {("attr", "channel")}, "FR", f"{q}: writes only `channel`", function=q,
-              construct="set_channel writes something other than the channel", message=f"{sorted({(w.kind, w.attr) for w in ws})}", file=fi.file, node=fi.node)
-    lp = message_loop(fi.node)
-    if lp is None:
-        raise AnalysisError(f"{q}: message loop not found")
-    tc = TypeCase(p, fi, {lp.target.id}, None)
-    exits = tc.run_body(lp.body)
-    rng = events_matching(exits, lambda e: e[0] == "attrstore" and e[1] == "msg" and e[2] == "channel")
-    ctx.check(rng == (1, 1) and all(k == "end" for k, _ in exits), "FR", f"{q}: every message gets the channel {rng}", function=q,
-              construct="set_channel skips some messages", message=f"stores per message {rng}, exits {sorted({k for k, _ in exits})}", file=fi.file, node=lp)
-    st = [n for n in ast.walk(lp) if isinstance(n, ast.Assign) and any(isinstance(t, ast.Attribute) and t.attr == "channel" for t in n.targets)]
-    ctx.check(bool(st) and all(isinstance(n.value, ast.Name) and n.value.id == fi.params[1] for n in st), "FR", f"{q}: assigns its argument",
-              function=q, construct="set_channel assigns something other than its argument", message=f"{[short(n) for n in st]}", file=fi.file, node=lp)
+    if only is None or 'set_channel' in only:
+        q = "RelativeSequence.set_channel"
+        fi = p.func(q)
+        ctx.analysed(fi)
+        ws = eff.writes("RelativeSequence", "set_channel")
+        ctx.check({(w.kind, w.attr) for w in ws} == {("attr", "channel")}, "FR", f"{q}: writes only `channel`", function=q,
+                  construct="set_channel writes something other than the channel", message=f"{sorted({(w.kind, w.attr) for w in ws})}", file=fi.file, node=fi.node)
+        lp = message_loop(fi.node)
+        if lp is None:
+            raise AnalysisError(f"{q}: message loop not found")
+        tc = TypeCase(p, fi, {lp.target.id}, None)
+        exits = tc.run_body(lp.body)
+        rng = events_matching(exits, lambda e: e[0] == "attrstore" and e[1] == "msg" and e[2] == "channel")
+        ctx.check(rng == (1, 1) and all(k == "end" for k, _ in exits), "FR", f"{q}: every message gets the channel {rng}", function=q,
+                  construct="set_channel skips some messages", message=f"stores per message {rng}, exits {sorted({k for k, _ in exits})}", file=fi.file, node=lp)
+        st = [n for n in ast.walk(lp) if isinstance(n, ast.Assign) and any(isinstance(t, ast.Attribute) and t.attr == "channel" for t in n.targets)]
+        ctx.check(bool(st) and all(isinstance(n.value, ast.Name) and n.value.id == fi.params[1] for n in st), "FR", f"{q}: assigns its argument",
+                  function=q, construct="set_channel assigns something other than its argument", message=f"{[short(n) for n in st]}", file=fi.file, node=lp)
 
     # ---- pad
-    q = "RelativeSequence.pad"
-    fi = p.func(q)
-    ctx.analysed(fi)
-    ws = eff.writes("RelativeSequence", "pad")
-    ctx.check({w.kind for w in ws} <= {"listmut"} and len(ws) == 1, "FR", f"{q}: only appends", function=q,
-              construct="pad does more than append one message", message=f"{[(w.kind, w.attr) for w in ws]}", file=fi.file, node=fi.node)
-    req = fi.params[1]
-    lp = message_loop(fi.node)
-    acc = None
-    if lp is not None:
-        for n in ast.walk(lp):
-            if isinstance(n, ast.AugAssign) and isinstance(n.op, ast.Add) and isinstance(n.target, ast.Name) and isinstance(n.value, ast.Attribute) \
-                    and n.value.attr == "time":
-                acc = n.target.id
-    if lp is None or acc is None:
-        raise AnalysisError(f"{q}: length measurement loop not found")
-    for T in p.enum_order("MessageType"):
-        tc = TypeCase(p, fi, {lp.target.id}, T)
-        exits = tc.run_body(lp.body)
-        rng = events_matching(exits, lambda e: e[0] == "aug" and e[1] == acc, kinds=("end", "continue", "break"))
-        want = (1, 1) if T == "WAIT" else (0, 0)
-        ctx.check(rng == want or (rng is None and want == (0, 0)), "MEASURE", f"{q}: {T} contributes {rng} to the measured length", function=q,
-                  construct=f"measured length counts {T} messages wrongly", message=f"{rng}, expected {want}", file=fi.file, node=lp)
-    init = [s for s in fi.node.body if isinstance(s, ast.Assign) and any(isinstance(t, ast.Name) and t.id == acc for t in s.targets)]
-    ctx.check(len(init) == 1 and isinstance(init[0].value, ast.Constant) and init[0].value.value == 0, "MEASURE", f"{q}: measurement starts at 0",
-              function=q, construct="measured length does not start at 0", message="", file=fi.file, node=fi.node)
-    # early exit only once the requested length is reached
-    for b in [n for n in ast.walk(lp) if isinstance(n, ast.Break)]:
-        g = getattr(b, "_parent", None)
-        ok = isinstance(g, ast.If) and isinstance(g.test, ast.Compare) and isinstance(g.test.ops[0], (ast.GtE, ast.Gt)) \
-            and isinstance(g.test.left, ast.Name) and g.test.left.id == acc and isinstance(g.test.comparators[0], ast.Name) and g.test.comparators[0].id == req
-        ctx.check(ok, "MEASURE", f"{q}: measuring stops early only when the requested length is reached", function=q,
-                  construct="measurement loop stops early under another condition", message=f"`{short(getattr(g, 'test', None))}`", file=fi.file, node=b)
-    apps = [c for c in walk_local(fi.node) if isinstance(c, ast.Call) and call_method(c)[1] in ("append", "add_message")
-            and c.args and isinstance(c.args[0], ast.Call) and call_method(c.args[0])[1] == "Message"]
-    ctx.floor("pad append site", len(apps), 1)
-    nz = Normaliser()
-    for c in apps:
-        m = c.args[0]
-        ctx.check(enum_member(kwarg(m, "message_type"), "MessageType") == "WAIT", "PAD", f"{q}: appends a WAIT", function=q,
-                  construct="pad appends something other than a WAIT", message=short(m), file=fi.file, node=c)
-        t = kwarg(m, "time")
-        want = nz.norm(ast.parse(f"{req} - {acc}", mode="eval").body)
-        got = nz.norm(t) if t is not None else None
-        # int() wrapper tolerated
-        if isinstance(t, ast.Call) and isinstance(t.func, ast.Name) and t.func.id == "int" and t.args:
-            got = nz.norm(t.args[0])
-        ctx.check(got == want, "PAD", f"{q}: appended wait = requested - measured", function=q,
-                  construct="appended wait is not requested length minus measured length",
-                  message=f"time normalises to `{got.canon() if got else None}`, expected `{want.canon()}`", file=fi.file, node=c)
-        g = next((a for a in ancestors(c) if isinstance(a, ast.If)), None)
-        ok = g is not None and isinstance(g.test, ast.Compare) and len(g.test.ops) == 1 and (
-            (isinstance(g.test.ops[0], ast.Lt) and src(g.test.left) == acc and src(g.test.comparators[0]) == req) or
-            (isinstance(g.test.ops[0], ast.Gt) and src(g.test.left) == req and src(g.test.comparators[0]) == acc))
-        ctx.check(ok, "PAD", f"{q}: pads only when measured < requested", function=q,
-                  construct="padding guard is not `measured < requested`", message=f"`{short(getattr(g, 'test', None))}`", file=fi.file, node=c)
-        ua = UnitAnalysis(p, fi)
-        if g is not None and isinstance(g.test, ast.Compare):
-            a, b = ua.unit(g.test.left), ua.unit(g.test.comparators[0])
-            pu = units.infer_param_unit(p, fi, req)
-            ctx.check(a == TICK or b == TICK, "UNIT", f"{q}: guard compares ticks ({show(a)} vs {show(b)})", function=q,
-                      construct="pad guard does not compare tick quantities", message=f"{show(a)} vs {show(b)}", file=fi.file, node=g)
-        ctx.check(not any(isinstance(a, (ast.For, ast.While)) for a in ancestors(c) if a is not fi.node), "PAD", f"{q}: pads once, after measuring",
-                  function=q, construct="padding happens inside the measuring loop", message="", file=fi.file, node=c)
+    if only is None or 'pad' in only:
+        q = "RelativeSequence.pad"
+        fi = p.func(q)
+        ctx.analysed(fi)
+        ws = eff.writes("RelativeSequence", "pad")
+        ctx.check({w.kind for w in ws} <= {"listmut"} and len(ws) == 1, "FR", f"{q}: only appends", function=q,
+                  construct="pad does more than append one message", message=f"{[(w.kind, w.attr) for w in ws]}", file=fi.file, node=fi.node)
+        req = fi.params[1]
+        lp = message_loop(fi.node)
+        acc = None
+        if lp is not None:
+            for n in ast.walk(lp):
+                if isinstance(n, ast.AugAssign) and isinstance(n.op, ast.Add) and isinstance(n.target, ast.Name) and isinstance(n.value, ast.Attribute) \
+                        and n.value.attr == "time":
+                    acc = n.target.id
+        if lp is None or acc is None:
+            raise AnalysisError(f"{q}: length measurement loop not found")
+        for T in p.enum_order("MessageType"):
+            tc = TypeCase(p, fi, {lp.target.id}, T)
+            exits = tc.run_body(lp.body)
+            rng = events_matching(exits, lambda e: e[0] == "aug" and e[1] == acc, kinds=("end", "continue", "break"))
+            want = (1, 1) if T == "WAIT" else (0, 0)
+            ctx.check(rng == want or (rng is None and want == (0, 0)), "MEASURE", f"{q}: {T} contributes {rng} to the measured length", function=q,
+                      construct=f"measured length counts {T} messages wrongly", message=f"{rng}, expected {want}", file=fi.file, node=lp)
+        init = [s for s in fi.node.body if isinstance(s, ast.Assign) and any(isinstance(t, ast.Name) and t.id == acc for t in s.targets)]
+        ctx.check(len(init) == 1 and isinstance(init[0].value, ast.Constant) and init[0].value.value == 0, "MEASURE", f"{q}: measurement starts at 0",
+                  function=q, construct="measured length does not start at 0", message="", file=fi.file, node=fi.node)
+        # early exit only once the requested length is reached
+        for b in [n for n in ast.walk(lp) if isinstance(n, ast.Break)]:
+            g = getattr(b, "_parent", None)
+            ok = isinstance(g, ast.If) and isinstance(g.test, ast.Compare) and isinstance(g.test.ops[0], (ast.GtE, ast.Gt)) \
+                and isinstance(g.test.left, ast.Name) and g.test.left.id == acc and isinstance(g.test.comparators[0], ast.Name) and g.test.comparators[0].id == req
+            ctx.check(ok, "MEASURE", f"{q}: measuring stops early only when the requested length is reached", function=q,
+                      construct="measurement loop stops early under another condition", message=f"`{short(getattr(g, 'test', None))}`", file=fi.file, node=b)
+        apps = [c for c in walk_local(fi.node) if isinstance(c, ast.Call) and call_method(c)[1] in ("append", "add_message")
+                and c.args and isinstance(c.args[0], ast.Call) and call_method(c.args[0])[1] == "Message"]
+        ctx.floor("pad append site", len(apps), 1)
+        nz = Normaliser()
+        for c in apps:
+            m = c.args[0]
+            ctx.check(enum_member(kwarg(m, "message_type"), "MessageType") == "WAIT", "PAD", f"{q}: appends a WAIT", function=q,
+                      construct="pad appends something other than a WAIT", message=short(m), file=fi.file, node=c)
+            t = kwarg(m, "time")
+            want = nz.norm(ast.parse(f"{req} - {acc}", mode="eval").body)
+            got = nz.norm(t) if t is not None else None
+            # int() wrapper tolerated
+            if isinstance(t, ast.Call) and isinstance(t.func, ast.Name) and t.func.id == "int" and t.args:
+                got = nz.norm(t.args[0])
+            ctx.check(got == want, "PAD", f"{q}: appended wait = requested - measured", function=q,
+                      construct="appended wait is not requested length minus measured length",
+                      message=f"time normalises to `{got.canon() if got else None}`, expected `{want.canon()}`", file=fi.file, node=c)
+            g = next((a for a in ancestors(c) if isinstance(a, ast.If)), None)
+            ok = g is not None and isinstance(g.test, ast.Compare) and len(g.test.ops) == 1 and (
+                (isinstance(g.test.ops[0], ast.Lt) and src(g.test.left) == acc and src(g.test.comparators[0]) == req) or
+                (isinstance(g.test.ops[0], ast.Gt) and src(g.test.left) == req and src(g.test.comparators[0]) == acc))
+            ctx.check(ok, "PAD", f"{q}: pads only when measured < requested", function=q,
+                      construct="padding guard is not `measured < requested`", message=f"`{short(getattr(g, 'test', None))}`", file=fi.file, node=c)
+            ua = UnitAnalysis(p, fi)
+            if g is not None and isinstance(g.test, ast.Compare):
+                a, b = ua.unit(g.test.left), ua.unit(g.test.comparators[0])
+                pu = units.infer_param_unit(p, fi, req)
+                ctx.check(a == TICK or b == TICK, "UNIT", f"{q}: guard compares ticks ({show(a)} vs {show(b)})", function=q,
+                          construct="pad guard does not compare tick quantities", message=f"{show(a)} vs {show(b)}", file=fi.file, node=g)
+            ctx.check(not any(isinstance(a, (ast.For, ast.While)) for a in ancestors(c) if a is not fi.node), "PAD", f"{q}: pads once, after measuring",
+                      function=q, construct="padding happens inside the measuring loop", message="", file=fi.file, node=c)
 
     # ---- cutoff
-    q = "AbsoluteSequence.cutoff"
-    fi = p.func(q)
-    ctx.analysed(fi)
-    ws = [w for w in eff.writes("AbsoluteSequence", "cutoff") if w.kind == "attr"]
-    ctx.floor("cutoff attribute stores", len(ws), 1)
-    mx, red = fi.params[1], fi.params[2]
-    for w in ws:
-        t = w.node.target if isinstance(w.node, ast.AugAssign) else w.node.targets[0]
-        second = isinstance(t.value, ast.Subscript) and isinstance(t.value.slice, ast.Constant) and t.value.slice.value == 1
-        ctx.check(w.attr == "time" and second, "FR", f"{q}: writes only the note-off time", function=q,
-                  construct="cutoff writes something other than a note's end", message=short(w.node), file=fi.file, node=w.node)
-        if not (w.attr == "time" and second):
-            continue
-        pair = src(t.value.value)
-        nzz = Normaliser()
-        new_end = nzz.norm(w.node.value) if isinstance(w.node, ast.Assign) else None
-        start = Sym.atom(f"{pair}[0].time")
-        ctx.check(new_end is not None and (new_end - start) == Sym.atom(red), "CUT", f"{q}: new end = onset + {red}", function=q,
-                  construct="shortened note does not end at onset + replacement length",
-                  message=f"new end - onset = `{(new_end - start).canon() if new_end else None}`", file=fi.file, node=w.node)
-        g = next((a for a in ancestors(w.node) if isinstance(a, ast.If) and w.node in a.body), None)
-        ok = False
-        if g is not None and isinstance(g.test, ast.Compare) and len(g.test.ops) == 1:
-            l, r = nzz.norm(g.test.left), nzz.norm(g.test.comparators[0])
-            dur = Sym.atom(f"{pair}[1].time") - start
-            ok = (isinstance(g.test.ops[0], ast.Gt) and l == dur and r == Sym.atom(mx)) or (isinstance(g.test.ops[0], ast.Lt) and r == dur and l == Sym.atom(mx))
-        ctx.check(ok, "CUT", f"{q}: shortens exactly the notes longer than {mx}", function=q,
-                  construct="cutoff guard is not `end - onset > maximum`", message=f"`{short(getattr(g, 'test', None))}`", file=fi.file, node=w.node)
-    from ..engines.mustflow import check_sorted_invariant
-    nsi = check_sorted_invariant(ctx, "SORT", methods={"cutoff"})
-    ctx.floor("cutoff re-sort obligation", nsi, 1)
-    lps = [n for n in ast.walk(fi.node) if isinstance(n, ast.For)]
-    ctx.check(not any(isinstance(x, (ast.Continue, ast.Break)) for lp_ in lps for x in ast.walk(lp_)), "FR", f"{q}: visits every pairing",
-              function=q, construct="cutoff skips pairings", message="", file=fi.file, node=fi.node)
+    if only is None or 'cutoff' in only:
+        q = "AbsoluteSequence.cutoff"
+        fi = p.func(q)
+        ctx.analysed(fi)
+        ws = [w for w in eff.writes("AbsoluteSequence", "cutoff") if w.kind == "attr"]
+        ctx.floor("cutoff attribute stores", len(ws), 1)
+        mx, red = fi.params[1], fi.params[2]
+        for w in ws:
+            t = w.node.target if isinstance(w.node, ast.AugAssign) else w.node.targets[0]
+            second = isinstance(t.value, ast.Subscript) and isinstance(t.value.slice, ast.Constant) and t.value.slice.value == 1
+            ctx.check(w.attr == "time" and second, "FR", f"{q}: writes only the note-off time", function=q,
+                      construct="cutoff writes something other than a note's end", message=short(w.node), file=fi.file, node=w.node)
+            if not (w.attr == "time" and second):
+                continue
+            pair = src(t.value.value)
+            nzz = Normaliser()
+            new_end = nzz.norm(w.node.value) if isinstance(w.node, ast.Assign) else None
+            start = Sym.atom(f"{pair}[0].time")
+            ctx.check(new_end is not None and (new_end - start) == Sym.atom(red), "CUT", f"{q}: new end = onset + {red}", function=q,
+                      construct="shortened note does not end at onset + replacement length",
+                      message=f"new end - onset = `{(new_end - start).canon() if new_end else None}`", file=fi.file, node=w.node)
+            g = next((a for a in ancestors(w.node) if isinstance(a, ast.If) and w.node in a.body), None)
+            ok = False
+            if g is not None and isinstance(g.test, ast.Compare) and len(g.test.ops) == 1:
+                l, r = nzz.norm(g.test.left), nzz.norm(g.test.comparators[0])
+                dur = Sym.atom(f"{pair}[1].time") - start
+                ok = (isinstance(g.test.ops[0], ast.Gt) and l == dur and r == Sym.atom(mx)) or (isinstance(g.test.ops[0], ast.Lt) and r == dur and l == Sym.atom(mx))
+            ctx.check(ok, "CUT", f"{q}: shortens exactly the notes longer than {mx}", function=q,
+                      construct="cutoff guard is not `end - onset > maximum`", message=f"`{short(getattr(g, 'test', None))}`", file=fi.file, node=w.node)
+        from ..engines.mustflow import check_sorted_invariant
+        nsi = check_sorted_invariant(ctx, "SORT", methods={"cutoff"})
+        ctx.floor("cutoff re-sort obligation", nsi, 1)
+        lps = [n for n in ast.walk(fi.node) if isinstance(n, ast.For)]
+        ctx.check(not any(isinstance(x, (ast.Continue, ast.Break)) for lp_ in lps for x in ast.walk(lp_)), "FR", f"{q}: visits every pairing",
+                  function=q, construct="cutoff skips pairings", message="", file=fi.file, node=fi.node)
 
     # ---- scale (factor > 1)
-    q = "RelativeSequence.scale"
-    fi = p.func(q)
-    ctx.analysed(fi)
-    fac = fi.params[1]
-    big = None
-    for n in fi.node.body:
-        if isinstance(n, ast.If) and isinstance(n.test, ast.Compare) and isinstance(n.test.ops[0], ast.Gt) and src(n.test.left) == fac \
-                and isinstance(n.test.comparators[0], ast.Constant) and n.test.comparators[0].value == 1 \
-                and any(isinstance(x, ast.For) for x in n.body):
-            big = n
-    if big is None:
-        raise AnalysisError(f"{q}: `if {fac} > 1:` scaling branch not found")
-    lp = next(x for x in big.body if isinstance(x, ast.For))
-    for T in p.enum_order("MessageType"):
-        tc = TypeCase(p, fi, {lp.target.id}, T)
-        exits = tc.run_body(lp.body)
-        rng = events_matching(exits, lambda e: e[0] == "attrstore" and e[1] == "msg" and e[2] == "time")
-        oth = events_matching(exits, lambda e: e[0] == "attrstore" and e[2] != "time")
-        want = (1, 1) if T == "WAIT" else (0, 0)
-        ctx.check((rng or (0, 0)) == want and (oth or (0, 0)) == (0, 0), "FR", f"{q}: {T}: time stores {rng}, other stores {oth}", function=q,
-                  construct=f"scale treats {T} messages wrongly", message=f"time stores {rng} (expected {want}), other attribute stores {oth}",
-                  file=fi.file, node=lp)
-    for n in ast.walk(lp):
-        if isinstance(n, (ast.Assign, ast.AugAssign)):
-            t = n.targets[0] if isinstance(n, ast.Assign) else n.target
-            if isinstance(t, ast.Attribute) and t.attr == "time":
-                nz2 = Normaliser()
-                if isinstance(n, ast.Assign):
-                    got = nz2.norm(n.value)
-                else:
-                    got = nz2.norm(ast.BinOp(left=t, op=n.op, right=n.value))
-                want = nz2.norm(t) * Sym.atom(fac)
-                ctx.check(got == want, "SCALE", f"{q}: wait time multiplied by the factor", function=q,
-                          construct="scaled wait is not time * factor", message=f"`{got.canon()}` vs `{want.canon()}`", file=fi.file, node=n)
-    # factor == 1: returns before any write
-    one = [n for n in fi.node.body if isinstance(n, ast.If) and isinstance(n.test, ast.Compare) and isinstance(n.test.ops[0], ast.Eq)
-           and src(n.test.left) == fac and isinstance(n.test.comparators[0], ast.Constant) and n.test.comparators[0].value == 1]
-    if one:
-        ctx.check(len(one[0].body) == 1 and isinstance(one[0].body[0], ast.Return) and one[0].lineno < big.lineno, "SCALE",
-                  f"{q}: factor 1 changes nothing", function=q, construct="factor 1 does not return untouched", message="", file=fi.file, node=one[0])
+    if only is None or 'scale' in only:
+        q = "RelativeSequence.scale"
+        fi = p.func(q)
+        ctx.analysed(fi)
+        fac = fi.params[1]
+        big = None
+        for n in fi.node.body:
+            if isinstance(n, ast.If) and isinstance(n.test, ast.Compare) and isinstance(n.test.ops[0], ast.Gt) and src(n.test.left) == fac \
+                    and isinstance(n.test.comparators[0], ast.Constant) and n.test.comparators[0].value == 1 \
+                    and any(isinstance(x, ast.For) for x in n.body):
+                big = n
+        if big is None:
+            raise AnalysisError(f"{q}: `if {fac} > 1:` scaling branch not found")
+        lp = next(x for x in big.body if isinstance(x, ast.For))
+        for T in p.enum_order("MessageType"):
+            tc = TypeCase(p, fi, {lp.target.id}, T)
+            exits = tc.run_body(lp.body)
+            rng = events_matching(exits, lambda e: e[0] == "attrstore" and e[1] == "msg" and e[2] == "time")
+            oth = events_matching(exits, lambda e: e[0] == "attrstore" and e[2] != "time")
+            want = (1, 1) if T == "WAIT" else (0, 0)
+            ctx.check((rng or (0, 0)) == want and (oth or (0, 0)) == (0, 0), "FR", f"{q}: {T}: time stores {rng}, other stores {oth}", function=q,
+                      construct=f"scale treats {T} messages wrongly", message=f"time stores {rng} (expected {want}), other attribute stores {oth}",
+                      file=fi.file, node=lp)
+        for n in ast.walk(lp):
+            if isinstance(n, (ast.Assign, ast.AugAssign)):
+                t = n.targets[0] if isinstance(n, ast.Assign) else n.target
+                if isinstance(t, ast.Attribute) and t.attr == "time":
+                    nz2 = Normaliser()
+                    if isinstance(n, ast.Assign):
+                        got = nz2.norm(n.value)
+                    else:
+                        got = nz2.norm(ast.BinOp(left=t, op=n.op, right=n.value))
+                    want = nz2.norm(t) * Sym.atom(fac)
+                    ctx.check(got == want, "SCALE", f"{q}: wait time multiplied by the factor", function=q,
+                              construct="scaled wait is not time * factor", message=f"`{got.canon()}` vs `{want.canon()}`", file=fi.file, node=n)
+        # factor == 1: returns before any write
+        one = [n for n in fi.node.body if isinstance(n, ast.If) and isinstance(n.test, ast.Compare) and isinstance(n.test.ops[0], ast.Eq)
+               and src(n.test.left) == fac and isinstance(n.test.comparators[0], ast.Constant) and n.test.comparators[0].value == 1]
+        if one:
+            ctx.check(len(one[0].body) == 1 and isinstance(one[0].body[0], ast.Return) and one[0].lineno < big.lineno, "SCALE",
+                      f"{q}: factor 1 changes nothing", function=q, construct="factor 1 does not return untouched", message="", file=fi.file, node=one[0])
 
-    for w, c, v in (("Sequence.pad", "pad", "rel"), ("Sequence.cutoff", "cutoff", "abs"), ("Sequence.set_channel", "set_channel", "rel"),
-                    ("Sequence.scale", "scale", "rel")):
-        passes_through(ctx, w, c, v)
+    if only is None:
+        for w, c, v in (("Sequence.pad", "pad", "rel"), ("Sequence.cutoff", "cutoff", "abs"), ("Sequence.set_channel", "set_channel", "rel"),
+                        ("Sequence.scale", "scale", "rel")):
+            passes_through(ctx, w, c, v)
